@@ -35,16 +35,17 @@ def _c13_loops(nested, man):
             " && !g_p0->fp.live && !g_p0->buf.live && !g_p0->eng.live"
             " && source->currentStringLength < source->currentStringBufferSize"
             " && (start == 0 || (__CPROVER_same_object(start, source->str) && start == g_last && (unsigned long)start >= (unsigned long)source->str"
-            "     && (unsigned long)start - (unsigned long)source->str + 2 <= source->currentStringLength))")
-    guard = {"loop_id": 0, "vars": ["i@0", "stack_depth", "temp"],
+            "     && (unsigned long)start - (unsigned long)source->str + 2 <= source->currentStringLength"
+            "     && g_S->opened && !g_S->ins && !g_S->toc && g_S->open_off == (unsigned long)start - (unsigned long)source->str))")
+    guard = {"match": r"for \(.*<\s*stack_depth", "vars": ["i@loop", "stack_depth", "temp"],
              "invariants": "i >= 0 && (unsigned long)i <= stack_depth && !g_eq && (!(g_k < (unsigned long)i) || g_hit) && g_mhit == __CPROVER_loop_entry(g_mhit) && g_meq == __CPROVER_loop_entry(g_meq)",
              "assigns": "i, temp, g_hit, g_eq, g_mhit, g_meq, g_peek_stack, g_peek_idx", "decreases": "stack_depth - (unsigned long)i"}
-    mani = {"loop_id": 1, "vars": ["i@1", "manifest", "temp", "add"],
+    mani = {"match": r"for \(.*<\s*manifest->size", "vars": ["i@loop", "manifest", "temp", "add"],
             "invariants": "i >= 0 && (unsigned long)i <= manifest->size && (!add || !g_meq) && (!(add && g_mk < (unsigned long)i) || g_mhit) && g_hit == __CPROVER_loop_entry(g_hit) && g_eq == __CPROVER_loop_entry(g_eq)",
             "assigns": "i, temp, add, g_hit, g_eq, g_mhit, g_meq, g_peek_stack, g_peek_idx", "decreases": "manifest->size - (unsigned long)i"}
-    marker = {"loop_id": 2, "vars": ["source", "parse_stack", "stack_depth", "start", "stop", "last_match", "text", "file_path", "buffer", "temp", "e", "offset"],
+    marker = {"match": r"while \(start", "vars": ["source", "parse_stack", "stack_depth", "start", "stop", "last_match", "text", "file_path", "buffer", "temp", "e", "offset"],
               "invariants": inv0,
-              "assigns": "start, stop, last_match, __CPROVER_object_whole(text), file_path, buffer, temp, e, offset, source->currentStringLength, __CPROVER_object_whole(g_p0), __CPROVER_object_whole(g_p1), "
+              "assigns": "start, stop, last_match, __CPROVER_object_whole(text), file_path, buffer, temp, e, offset, source->currentStringLength, __CPROVER_object_whole(g_p0), __CPROVER_object_whole(g_p1), g_S->open_off, g_S->stop_off, g_S->ins_len, g_S->opened, g_S->ins, g_S->toc, "
                          "g_hit, g_eq, g_mhit, g_meq, g_last, g_peek_stack, g_peek_idx, parse_stack->size, __CPROVER_object_whole(parse_stack->element)",
               "decreases": "start == 0 ? 0 : 1 + source->currentStringLength - ((unsigned long)start - (unsigned long)source->str)"}
     if man:
